@@ -104,6 +104,19 @@ class Engine:
     # ------------------------------------------------------------------
     # helpers
     # ------------------------------------------------------------------
+    def class_literal(self, cls, attr):
+        """Class-level constant (e.g. OptimizeResult._keys): evaluated from the literal in the class body."""
+        for mod, (rel, src, tree) in self.index.modules.items():
+            for n in tree.body:
+                if isinstance(n, ast.ClassDef) and n.name == cls:
+                    for m in n.body:
+                        if isinstance(m, ast.Assign) and any(isinstance(t, ast.Name) and t.id == attr for t in m.targets):
+                            if isinstance(m.value, (ast.List, ast.Tuple)) and all(isinstance(x, ast.Constant) for x in m.value.elts):
+                                return Val.of_tup([self.ev_Constant(x, None) for x in m.value.elts])
+                            if isinstance(m.value, ast.Constant):
+                                return self.ev_Constant(m.value, None)
+        return None
+
     def stmt_ordinal(self, s, cls):
         fi = self.func
         key = "_ord_" + cls.__name__
@@ -290,6 +303,11 @@ class Engine:
     def exec_stmt(self, s, st):
         st = self.exec_stmt0(s, st)
         c = self.cur_contract
+        if c is not None and c.chooses and self.inline_depth == 0 and st is not None and isinstance(s, (ast.Assign, ast.AugAssign, ast.Expr)) \
+                and self.func is not None and self.func.qual == c.qual:
+            for ch in c.chooses.get(ast.unparse(s), []):
+                self.apply_choose(ch, st, s)
+                self.hooks_fired.add("choose:" + ast.unparse(s))
         if c is not None and c.hooks and self.inline_depth == 0 and st is not None and isinstance(s, (ast.Assign, ast.AugAssign, ast.Expr)):
             h = c.hooks.get(ast.unparse(s))
             if h:
@@ -307,6 +325,28 @@ class Engine:
                     self.cuts_fired.add(k)
                     self.apply_cut(k, cut, st, s)
         return st
+
+    def apply_choose(self, ch, st, node):
+        lam = ch["pred"]
+        name = lam.args.args[0].arg
+        when = self.truth(self.ev_spec(ch["when"], st, pre=self.entry_state, polarity=-1))
+        # 1. existence (goal position: z3 finds the witness)
+        q = z3.Int(ctx().fresh("q_" + name))
+        s2 = st.copy()
+        s2.env[name] = Val.of_num(N(q))
+        ctx().binders.append([q])
+        try:
+            body = self.truth(self.ev_spec(lam.body, s2, pre=self.entry_state, polarity=0))
+        finally:
+            ctx().binders.pop()
+        self.oblige("choose[%s]::exists" % ch["var"], st, z3.Implies(when, z3.Exists([q], body)), "choose", False, ch["props"], node)
+        # 2. bind the ghost to a witness
+        w = z3.Int(ctx().fresh("w_" + name))
+        s3 = st.copy()
+        s3.env[name] = Val.of_num(N(w))
+        fact = self.truth(self.ev_spec(lam.body, s3, pre=self.entry_state, polarity=-1))
+        st.pc = z3.And(st.pc, z3.Implies(when, fact))
+        st.env[ch["var"]] = Val.of_num(N(w))
 
     def apply_cut(self, k, cut, st, node):
         for cl in cut["clauses"]:
@@ -701,6 +741,14 @@ class Engine:
         if isinstance(t, ast.Starred):
             self.assign(t.value, Val.fresh("star"), st)
             return
+        if isinstance(t, ast.Subscript):
+            bv = self.ev(t.value, st)
+            if bv.py is not None and bv.py[0] == "instance" and bv.py[1] in ("OptimizeResult",):
+                fi = self.index.method(bv.py[1], "__setitem__")
+                if fi is not None and self.inline_depth < 4:
+                    from . import calls
+                    calls.inline_def(self, fi.node, fi, [self.ev(t.slice, st), v], {}, st, t, self_val=bv)
+                    return
         kind, key = self.lvalue(t, st)
         if kind == "local":
             st.env[key] = v
@@ -810,6 +858,9 @@ class Engine:
         if a is not None and at in ("shape", "size", "ndim", "T", "flat"):
             return npmodel.arr_attr(self, a, at)
         if base.py is not None and base.py[0] == "class":
+            lit = self.class_literal(base.py[1], at)
+            if lit is not None:
+                return lit
             return Val(py=("classattr", base.py[1], at), ref="class:%s.%s" % (base.py[1], at))
         if base.ref is not None:
             return self.lookup(st, base.ref + "." + at)
